@@ -17,6 +17,8 @@ import time
 
 ROOT = os.path.dirname(os.path.dirname(os.path.abspath(__file__)))
 PY = os.path.join(ROOT, '.venv', 'bin', 'python')
+if not os.path.exists(PY):
+    PY = sys.executable        # e.g. a snapshot of /verif driven by /verif/.venv/bin/python
 NPROC = int(os.environ.get('VERIF_NPROC', '16'))
 # scratch redirection used only by tools/try_mutant.sh so that trial runs do not clobber the committed evidence
 EVID_DIR = os.environ.get('VERIF_EVIDENCE_DIR', os.path.join(ROOT, 'evidence'))
